@@ -140,7 +140,7 @@ class StrFlow(S.SemFlow):
         return S.SemFlow.write(self, P, local, proj, val)
 
     def term(self, v):
-        if isinstance(v, tuple) and v and v[0] in ("strlit", "strbuf", "chariter", "bytes", "byteiter", "vec", "viter", "fmtarg", "fmtargs", "nameref", "dict", "mapped"):
+        if isinstance(v, tuple) and v and v[0] in ("strlit", "strbuf", "chariter", "bytes", "byteiter", "vec", "viter", "fmtarg", "fmtarg_hex", "fmtargs", "nameref", "dict", "mapped"):
             k = self._opaque.setdefault(id(v), len(self._opaque))
             self._keep.append(v)
             return const("opaque_%s_%d" % (v[0], k))
@@ -152,6 +152,9 @@ def fmt_models(as_items):
     length-prefixed, 0xC0 is a placeholder with default formatting, 0x00 ends the template; anything else is unsupported)"""
     def new_display(flow, P, callee, args):
         return ("fmtarg", flow.deref_all(P, args[0]))
+
+    def new_lower_hex(flow, P, callee, args):
+        return ("fmtarg_hex", flow.deref_all(P, args[0]))
 
     def args_new(flow, P, callee, args):
         tpl = flow.deref_all(P, args[0])
@@ -179,16 +182,47 @@ def fmt_models(as_items):
                 out += as_items(flow, P, fa[k][1])
                 k += 1
                 i += 1
+            elif 0xC1 <= b <= 0xC7 and k < len(fa) and isinstance(fa[k], tuple) and fa[k][0] == "fmtarg_hex" and flow.is_num(fa[k][1]):
+                # a placeholder with options: bit 0 -> a u32 of flags follows (fill in the low 21 bits, bit 24 = zero padding), bit 1 -> a u16 width, bit 2 -> a u16 precision
+                j, flags, width = i + 1, 0, 0
+                if b & 1:
+                    flags = int.from_bytes(bytes(tpl[j:j + 4]), "little")
+                    j += 4
+                if b & 2:
+                    width = int.from_bytes(bytes(tpl[j:j + 2]), "little")
+                    j += 2
+                if b & 4:
+                    raise Unsupported("format precision")
+                if width and not (flags >> 24) & 1:
+                    raise Unsupported("format width without zero padding")
+                pending = (len(out), flow.num(fa[k][1]), max(width, 1))
+                if any(isinstance(x, tuple) and x[0] == "hexslot" for x in out):
+                    raise Unsupported("two formatted numbers in one format string")
+                out.append(("hexslot", pending[1], pending[2]))
+                k += 1
+                i = j
             else:
                 raise Unsupported("format template byte 0x%02x (a non-default format spec)" % b)
         if k != len(fa):
             raise Unsupported("format arguments left over")
-        return ("strbuf", out)
+        slot = [n for n, x in enumerate(out) if isinstance(x, tuple) and x[0] == "hexslot"]
+        if not slot:
+            return ("strbuf", out)
+        # `{:0Nx}` of a solver integer: one alternative per number of digits
+        n, v, w = slot[0], out[slot[0]][1], out[slot[0]][2]
+        dig = lambda d: z3.If(d < 10, 48 + d, 87 + d)
+        alts = []
+        for nd in range(w, 9):
+            lo = 0 if nd == w else 16 ** (nd - 1)
+            pc = [v >= lo, v < 16 ** nd]
+            digits = [dig((v / (16 ** e)) % 16) for e in range(nd - 1, -1, -1)]
+            alts.append((pc, ("strbuf", out[:n] + digits + out[n + 1:]), {}))
+        return ("fork", alts)
 
     def ident(flow, P, callee, args):
         return args[0]
 
-    return [(r"Argument::<'_>::new_display::<", new_display), (r"Arguments::<'_>::new::<", args_new),
+    return [(r"Argument::<'_>::new_display::<", new_display), (r"Argument::<'_>::new_lower_hex::<", new_lower_hex), (r"Arguments::<'_>::new::<", args_new),
             (r"^std::fmt::format$|alloc::fmt::format$", fmt_format), (r"^must_use::<String>$", ident)]
 
 
@@ -214,9 +248,9 @@ def models(chars):
     def s_push_str(flow, P, callee, args):
         buf = flow.deref_all(P, args[0])
         lit = flow.deref_all(P, args[1])
-        if not (isinstance(buf, tuple) and buf[0] == "strbuf") or not (isinstance(lit, tuple) and lit[0] == "strlit"):
-            raise Unsupported("String::push_str of a non-literal")
-        wr(flow, P, args[0], ("strbuf", buf[1] + [z3.IntVal(ord(c)) for c in lit[1]]))
+        if not (isinstance(buf, tuple) and buf[0] == "strbuf") or not (isinstance(lit, tuple) and lit[0] in ("strlit", "strbuf")):
+            raise Unsupported("String::push_str of something that is neither a literal nor built text")
+        wr(flow, P, args[0], ("strbuf", buf[1] + ([z3.IntVal(ord(c)) for c in lit[1]] if lit[0] == "strlit" else list(lit[1]))))
         return const("unit")
 
     def s_len(flow, P, callee, args):
@@ -225,7 +259,92 @@ def models(chars):
         return ("sint", n)
 
     def s_chars(flow, P, callee, args):
-        return ("chariter", 0)
+        return ("chariter", 0, False)
+
+    def c_enumerate(flow, P, callee, args):
+        it = flow.deref_all(P, args[0])
+        if not (isinstance(it, tuple) and it[0] == "chariter"):
+            raise Unsupported("enumerate on %r" % (it,))
+        return ("chariter", it[1], True)
+
+    def s_as_bytes(flow, P, callee, args):
+        """the UTF-8 bytes of the input: one alternative per vector of encoded widths (the shape of the byte slice must be concrete)"""
+        v = flow.deref_all(P, args[0])
+        if not (z3.is_expr(v) and v.eq(INPUT)):
+            raise Unsupported("str::as_bytes of something else than the input")
+        if len(chars) > 4:
+            raise Unsupported("str::as_bytes on more than four characters")
+        import itertools
+        alts = []
+        for ws in itertools.product((1, 2, 3, 4), repeat=len(chars)):
+            pc, out = [], []
+            for c, w in zip(chars, ws):
+                if z3.is_int_value(c):
+                    cw = 1 if c.as_long() < 0x80 else 2 if c.as_long() < 0x800 else 3 if c.as_long() < 0x10000 else 4
+                    if cw != w:
+                        pc = None
+                        break
+                else:
+                    pc.append({1: c < 0x80, 2: z3.And(c >= 0x80, c < 0x800), 3: z3.And(c >= 0x800, c < 0x10000), 4: c >= 0x10000}[w])
+                if w == 1:
+                    bs = [c]
+                elif w == 2:
+                    bs = [0xC0 + c / 64, 0x80 + c % 64]
+                elif w == 3:
+                    bs = [0xE0 + c / 4096, 0x80 + (c / 64) % 64, 0x80 + c % 64]
+                else:
+                    bs = [0xF0 + c / 262144, 0x80 + (c / 4096) % 64, 0x80 + (c / 64) % 64, 0x80 + c % 64]
+                out += [("sint", b) for b in bs]
+            if pc is not None:
+                alts.append((pc, ("vec", out), {}))
+        if len(alts) == 1 and not alts[0][0]:
+            return alts[0][1]
+        return ("fork", alts)
+
+    def sl_get(flow, P, callee, args):
+        v = flow.deref_all(P, args[0])
+        if not (isinstance(v, tuple) and v and v[0] == "vec") or not flow.is_int(args[1]):
+            raise Unsupported("slice::get(%r, %r)" % (v, args[1]))
+        i = args[1][1]
+        return ("agg", "Option::Some", [v[1][i]]) if 0 <= i < len(v[1]) else ("agg", "Option::None", [])
+
+    def sl_len(flow, P, callee, args):
+        v = flow.deref_all(P, args[0])
+        if isinstance(v, tuple) and v and v[0] == "vec":
+            return ("int", len(v[1]))
+        raise Unsupported("len of %r" % (v,))
+
+    def closure_of(flow, callee):
+        mm = re.search(r"\{closure@([^}]*)\}", callee)
+        if not mm:
+            raise Unsupported("closure type in " + callee)
+        loc = mm.group(1).strip()
+        cf = [f for f in flow.fns.values() if "{closure#" in f.short and f.params and loc in f.params[0][1]]
+        if len({f.name for f in cf}) != 1:
+            raise Unsupported("closure at %s not found uniquely" % loc)
+        return cf[0]
+
+    def is_some_and(flow, P, callee, args):
+        o = flow.deref_all(P, args[0])
+        if not (isinstance(o, tuple) and o and o[0] == "agg"):
+            raise Unsupported("is_some_and on %r" % (o,))
+        if o[1].endswith("None"):
+            return S.FALSE
+        return flow.inline(P, closure_of(flow, callee), [args[1], o[2][0]])
+
+    def is_ascii_digit(flow, P, callee, args):
+        b = flow.deref_all(P, args[0])
+        if not flow.is_num(b):
+            raise Unsupported("is_ascii_digit(%r)" % (b,))
+        x = flow.num(b)
+        return flow.mkbool(P, z3.And(x >= 48, x <= 57))
+
+    def is_control(flow, P, callee, args):
+        c = flow.deref_all(P, args[0])
+        if not flow.is_num(c):
+            raise Unsupported("is_control(%r)" % (c,))
+        x = flow.num(c)
+        return flow.mkbool(P, z3.Or(x < 0x20, z3.And(x >= 0x7f, x <= 0x9f)))      # general category Cc
 
     def ident(flow, P, callee, args):
         return args[0]
@@ -236,7 +355,9 @@ def models(chars):
             raise Unsupported("Chars::next on %r" % (it,))
         if it[1] >= len(chars):
             return ("agg", "Option::None", [])
-        wr(flow, P, args[0], ("chariter", it[1] + 1))
+        wr(flow, P, args[0], ("chariter", it[1] + 1, it[2]))
+        if it[2]:
+            return ("agg", "Option::Some", [("agg", "tuple2", [("int", it[1]), ("sint", chars[it[1]])])])
         return ("agg", "Option::Some", [("sint", chars[it[1]])])
 
     def as_items(flow, P, x):
@@ -287,10 +408,18 @@ def models(chars):
         e = (z3.Or(terms) if is_any else z3.And(terms)) if terms else z3.BoolVal(not is_any)
         return flow.mkbool(P, e)
 
-    return fmt_models(as_items) + [(r"str::<impl str>::bytes$", s_bytes), (r"Bytes<'_> as Iterator>::(any|all)::<", b_quant),
+    def s_deref(flow, P, callee, args):
+        return flow.deref_all(P, args[0])
+
+    return fmt_models(as_items) + [(r"<String as Deref>::deref$|String::as_str$", s_deref), (r"str::<impl str>::bytes$", s_bytes), (r"Bytes<'_> as Iterator>::(any|all)::<", b_quant),
             (r"String::with_capacity$|String::new$", s_new), (r"String::push$", s_push), (r"String::push_str$", s_push_str),
             (r"str::<impl str>::len$", s_len), (r"str::<impl str>::chars$", s_chars),
-            (r"<Chars<'_> as IntoIterator>::into_iter$", ident), (r"<Chars<'_> as Iterator>::next$", c_next)]
+            (r"<Chars<'_> as IntoIterator>::into_iter$|<Enumerate<Chars<'_>> as IntoIterator>::into_iter$", ident),
+            (r"<Chars<'_> as Iterator>::next$|<Enumerate<Chars<'_>> as Iterator>::next$", c_next),
+            (r"<Chars<'_> as Iterator>::enumerate$", c_enumerate), (r"str::<impl str>::as_bytes$", s_as_bytes),
+            (r"slice::<impl \[u8\]>::get::<usize>$", sl_get), (r"slice::<impl \[u8\]>::len$", sl_len),
+            (r"^Option::<&u8>::is_some_and::<", is_some_and), (r"<impl u8>::is_ascii_digit$|<impl char>::is_ascii_digit$", is_ascii_digit),
+            (r"<impl char>::is_control$", is_control)]
 
 
 HEXV = lambda t: z3.If(z3.And(t >= 48, t <= 57), t - 48, z3.If(z3.And(t >= 97, t <= 102), t - 87, z3.If(z3.And(t >= 65, t <= 70), t - 55, z3.IntVal(-1))))
